@@ -97,6 +97,38 @@ def native_accuracy(n, kind, scale, root, dtname, cfgname, seed, eps_ratio=None)
     return None
 
 
+def native_guard(n, cond_exp, dtname, root, seed):
+    """the higher-order solver must raise rather than return a result whose residual |A_ridge X^p - I|_inf exceeds its guard (0.1)"""
+    import torch
+    from fractions import Fraction
+    import matrix_functions as M
+    from matrix_functions_types import CoupledHigherOrderConfig
+    g = torch.Generator().manual_seed(seed)
+    dt = torch.float32 if dtname == "f32" else torch.float64
+    Q, _ = torch.linalg.qr(torch.randn(n, n, generator=g, dtype=torch.float64))
+    lam = torch.logspace(0, -cond_exp, n, dtype=torch.float64)
+    A = ((Q * lam.unsqueeze(0)) @ Q.T)
+    A = ((A + A.T) / 2).to(dt)
+    eps = 10.0 ** (-cond_exp - 2)
+    r = Fraction(root)
+    try:
+        X = M.matrix_inverse_root(A, r, root_inv_config=CoupledHigherOrderConfig(max_iterations=100, tolerance=1e-8), epsilon=eps)
+    except ArithmeticError:
+        return None
+    except Exception as e:
+        return f"raised {type(e).__name__}: {e}"
+    if not torch.isfinite(X).all():
+        return "returned a non-finite result instead of raising"
+    Ar = A + eps * torch.eye(n, dtype=dt)
+    Xp = torch.linalg.matrix_power(torch.linalg.matrix_power(X, r.numerator), 1) if r.denominator == 1 else None
+    if Xp is None:
+        return None
+    res = float(torch.linalg.vector_norm(Ar @ Xp - torch.eye(n, dtype=dt), float("inf")))
+    if res > 0.1 * 1.5:
+        return f"returned a result with residual {res:.3e} > guard 0.1 (n={n}, cond=1e{cond_exp}, {dtname})"
+    return None
+
+
 def bounded(tier, seed):
     import itertools
     from fractions import Fraction
@@ -111,6 +143,15 @@ def bounded(tier, seed):
         if bad and len(viol) < 5:
             viol.append(dict(ob=f"bounded/accuracy[{n},{kind},{scale},{root},{dtn},{cfgn}]", func="matrix_inverse_root", input=dict(n=n, spectrum=kind, scale=scale, root=str(root), dtype=dtn, config=cfgn),
                              text=bad, detail=bad, replay=dict(kind="accuracy", n=n, spectrum=kind, scale=scale, root=[root.numerator, root.denominator], dt=dtn, cfg=cfgn, seed=seed)))
+    # residual guard of the higher-order solver on ill-conditioned input
+    for n, ce, dtn, root in itertools.product((4, 8, 16), (4, 6, 8, 10), ("f32", "f64"), (2, 4)):
+        for k in range(1 if tier == "quick" else 4):
+            bad = native_guard(n, ce, dtn, root, seed * 10 + k)
+            evals += 1
+            distinct.add(("guard", n, ce, dtn, root, k))
+            if bad and len(viol) < 5:
+                viol.append(dict(ob=f"bounded/higher-order-guard[{n},1e{ce},{dtn},{root}]", func="_matrix_inverse_root_higher_order", input=dict(n=n, cond_exp=ce, dtype=dtn, root=root), text=bad, detail=bad,
+                                 replay=dict(kind="guard", n=n, ce=ce, dt=dtn, root=root, seed=seed * 10 + k)))
     # epsilon of the order of ||A||_F and beyond
     for n, kind, ratio, root, dtn, cfgn in itertools.product((2, 5, 8), ("random", "rankdef"), (0.1, 1.0, 10.0, 100.0), (Fraction(2), Fraction(4)), ("f32", "f64"), ("eigen", "newton", "higher")):
         bad = native_accuracy(n, kind, 1.0, root, dtn, cfgn, seed, eps_ratio=ratio)
@@ -145,8 +186,17 @@ def replay_file(doc):
     if rp.get("kind") == "accuracy":
         bad = native_accuracy(rp["n"], rp["spectrum"], rp["scale"], Fraction(*rp["root"]), rp["dt"], rp["cfg"], rp["seed"], eps_ratio=rp.get("ratio"))
         return bool(bad), f"{rp}: {bad}"
+    if rp.get("kind") == "guard":
+        bad = native_guard(rp["n"], rp["ce"], rp["dt"], rp["root"], rp["seed"])
+        return bool(bad), f"{rp}: {bad}"
     if rp.get("kind") in ("dispatch", "newton", "higher", "eigen"):
         import itertools
+        if rp.get("kind") == "higher":
+            for n, ce, dtn, root in itertools.product((4, 8, 16), (6, 8, 10), ("f32",), (2, 4)):
+                for k in range(3):
+                    bad = native_guard(n, ce, dtn, root, k)
+                    if bad:
+                        return True, f"n={n} cond=1e{ce} {dtn} root={root}: {bad}"
         for n, kind, root, dtn, cfgn in itertools.product((1, 3, 8), ("random", "graded", "rankdef"), (Fraction(2), Fraction(4, 3)), ("f32", "f64"), ("eigen", "stab", "newton", "higher")):
             for scale in (1e-3, 1.0, 1e3):
                 bad = native_accuracy(n, kind, scale, root, dtn, cfgn, 0)
